@@ -6,3 +6,12 @@ use super::super::*;
 pub(crate) fn put<'e, U>(ctx: &mut ExecutionContext<'e, U>, index: usize, v: LhsValue<'e>) {
     ctx.values[index] = Some(v);
 }
+
+/// Replace the whole slot vector of a one-field context by a fixed-size boxed array.
+/// (`ExecutionContext::new` allocates `vec![None; field_count]`, whose length CBMC
+/// treats as symbolic; reading a slot of that allocation sends CBMC's array
+/// post-processing out of memory - measured 44-59 GB.)
+pub(crate) fn set_slots1<'e, U>(ctx: &mut ExecutionContext<'e, U>, v: Option<LhsValue<'e>>) {
+    let old = std::mem::replace(&mut ctx.values, Box::new([v]));
+    std::mem::forget(old);
+}
